@@ -11,12 +11,14 @@ PROPS_MODULE = "C06_Properties"
 THEOREMS = ["C06_upper", "C06_upper_closed", "C06_upper_concurrent", "C06_spec_conc", "C06_upper_skew",
             "C06_stale_clock_refuted", "C06_upper_closed_strict_refuted",
             "C06_lower_tokens", "C06_lower", "C06_fresh", "C06_rejects_rest", "C06_resize",
+            "C06_sync_by_name", "C06_sync_windows",
             "C06_spec_closed", "C06_spec_open", "C06_spec_lower", "C06_closed_ok_iff", "C06_open_all_iff"]
 EVAL = "C06_Check.eval"
-CLAUSES = ["agree", "closed", "open", "lower", "status"]
+CLAUSES = ["agree", "closed", "open", "lower", "status", "lookup"]
 RULE = ("virtual-clock traces: distinct (qps, burst, op list) in which at least one request is admitted and at least "
         "one is rejected (429) and the clock readings have at least two different gaps; dispatcher traces: the same "
-        "through the real dispatcher; real-time cases are never counted")
+        "through the real dispatcher; multi-schema cases (dispatcher or bare upstreamLimiter): the same, and at "
+        "least one re-sync of the spec that leaves the schema under test unchanged; real-time cases are never counted")
 TRUSTED_BASE = [
     "Coq 8.16.1 kernel + vm_compute (case files); no native_compute, no extraction",
     "hand-written model C06_Model.v (exact integer arithmetic in 1e-9-token units) tied to /repo by the differential "
@@ -145,6 +147,10 @@ QS = [1, 2, 3, 5, 7, 10, 13, 50, 97, 100, 1000, 1009, 10007, 100000, 781250, 100
 BS = [1, 2, 3, 5, 7, 10, 41, 100, 101, 1000, 20011]
 
 
+def sch(name, typ, q=0, b=0, max=0):
+    return {"name": name, "typ": typ, "q": q, "b": b, "max": max}
+
+
 def tries(ts):
     return [{"op": "try", "t": BASE + t} for t in ts]
 
@@ -183,7 +189,20 @@ def corpus():
         ("read", 4, 100 * ms), ("read", 3, 150 * ms), ("go", 3, 150 * ms), ("go", 4, 150 * ms),
         ("read", 6, 150 * ms), ("read", 5, 200 * ms), ("go", 5, 200 * ms), ("go", 6, 200 * ms),
         ("read", 7, 250 * ms), ("go", 7, 250 * ms)])})
-    cs.append({"kind": "disp", "q": 10, "b": 3, "pat": "disp",
+    # several schemas in one cluster; only siblings change / are added / removed while "tb" is passed unchanged:
+    # "tb" is NOT reconfigured, its windows run across the re-syncs and its limiter stays the token bucket
+    sib = [sch("mi1", "mi", max=5), sch("tb2", "tb", q=100, b=50), sch("ex", "ex")]
+    for kind in ("disp", "ulim"):
+        tb = sch("tb", "tb", q=1, b=3)
+        cs.append({"kind": kind, "q": 1, "b": 3, "pat": "sibling-sync", "spec": [tb] + sib, "ops":
+                   tries([0, 0, 0, 0]) +
+                   [{"op": "sync", "spec": [tb, sch("mi1", "mi", max=6)] + sib[1:]}] + tries([1, 1, 1, 2]) +     # sibling changed
+                   [{"op": "sync", "spec": [sch("new", "mi", max=1), tb, sch("mi1", "mi", max=6)] + sib[1:]}] + tries([3, 3]) +  # added
+                   [{"op": "sync", "spec": [sch("new", "mi", max=1), tb]}] + tries([4, 4, NS + 4, NS + 4]) +      # removed
+                   [{"op": "sync", "spec": [sch("new", "mi", max=1), tb]}] + tries([NS + 5]) +                     # identical
+                   [{"op": "sync", "spec": [sch("new", "mi", max=1), sch("tb", "tb", q=1, b=2)]}] + tries([NS + 6] * 3) +  # tb itself
+                   [{"op": "sync", "spec": [sch("tb", "tb", q=1, b=2)]}] + tries([NS + 7, 3 * NS, 3 * NS])})
+    cs.append({"kind": "disp", "q": 10, "b": 3, "pat": "disp", "spec": [sch("tb", "tb", q=10, b=3)],
                "ops": tries([0, 0, 0, 0, 100000000, 100000001, 300000000, 300000000, 300000000])})
     cs.append({"kind": "rt", "q": 5, "b": 20, "calls": 60})
     cs.append({"kind": "rtconc", "q": 50, "b": 30, "g": 8, "dur_ms": 120})
@@ -286,15 +305,71 @@ def gen_trace(rng, maxn):
     return {"kind": "trace", "q": q, "b": b, "pat": "+".join(sorted(set(labels))), "ops": ops}
 
 
+SIBS = [("mi1", "mi"), ("mi2", "mi"), ("tb2", "tb"), ("ex", "ex"), ("a", "mi"), ("z", "tb")]
+
+
+def gen_sibling(rng, name, typ):
+    if typ == "mi":
+        return sch(name, "mi", max=rng.choice([1, 5, 10]))
+    if typ == "tb":
+        return sch(name, "tb", q=rng.choice([1, 10, 100]), b=rng.choice([1, 5, 50]))
+    return sch(name, "ex")
+
+
+def gen_multi(rng, kind):
+    """One cluster / limiter with the token bucket "tb" and 1-3 siblings; requests for "tb" interleaved with
+    re-syncs of the whole spec: sibling changed / added / removed, identical, order changed, "tb" itself changed."""
+    q = rng.choice([1, 2, 5, 10, 100, 1000])
+    b = rng.choice([1, 2, 3, 5, 10])
+    sibs = [gen_sibling(rng, n, t) for n, t in rng.sample(SIBS, rng.randint(1, 3))]
+    spec = list(sibs)
+    spec.insert(rng.below(len(spec) + 1), sch("tb", "tb", q=q, b=b))
+    case = {"kind": kind, "q": q, "b": b, "pat": "multi", "spec": spec, "ops": []}
+    n = rng.randint(6, 30)
+    ts, _ = gen_times(rng, q, b, n)
+    cur, labels, i = spec, set(), 0
+    while i < len(ts):
+        m = rng.randint(1, 6)
+        case["ops"] += tries(ts[i:i + m])
+        i += m
+        if rng.chance(2, 3):
+            new = [dict(x) for x in cur]
+            k = rng.below(100)
+            others = [x for x in new if x["name"] != "tb"]
+            if k < 30 and others:                       # a sibling changed
+                x = rng.choice(others)
+                x.update(gen_sibling(rng, x["name"], x["typ"]), max=x["max"] + 1, q=x["q"] + 1)
+                labels.add("sibling-changed")
+            elif k < 50:                                # a sibling added
+                free = [(nm, t) for nm, t in SIBS if nm not in {x["name"] for x in new}]
+                if free:
+                    new.insert(rng.below(len(new) + 1), gen_sibling(rng, *rng.choice(free)))
+                    labels.add("sibling-added")
+            elif k < 68 and others:                     # a sibling removed
+                new.remove(rng.choice(others))
+                labels.add("sibling-removed")
+            elif k < 78:                                # identical re-sync
+                labels.add("identical")
+            elif k < 86:                                # same schemas, other order
+                new = rng.shuffle(new)
+                labels.add("reordered")
+            else:                                       # the bucket under test is reconfigured
+                for x in new:
+                    if x["name"] == "tb":
+                        x["q"], x["b"] = rng.choice([1, 5, 10, 100]), rng.choice([1, 2, 5])
+                labels.add("tb-changed")
+            case["ops"].append({"op": "sync", "spec": new})
+            cur = new
+    case["pat"] = "+".join(sorted(labels)) or "no-sync"
+    return case
+
+
 def generate(rng, tier, scale=1):
-    nt, nd = (300, 6) if tier == "quick" else (4000, 40)
-    nt, nd = nt * scale, nd * scale
+    nt, nd, nu = (300, 6, 60) if tier == "quick" else (4000, 40, 800)
+    nt, nd, nu = nt * scale, nd * scale, nu * scale
     cs = [gen_trace(rng, 120) for _ in range(nt)]
-    for _ in range(nd):
-        c = gen_trace(rng, 40)
-        c["ops"] = [o for o in c["ops"] if o["op"] == "try"]
-        c["kind"] = "disp"
-        cs.append(c)
+    for k in range(nd + nu):
+        cs.append(gen_multi(rng, "disp" if k < nd else "ulim"))
     for _ in range(nd):
         cs.append(gen_conc(rng))
     return cs
@@ -311,6 +386,15 @@ def coq_op(o):
     return "(OResize %s %s)" % (cZ(o["q"]), cZ(o["b"]))
 
 
+def coq_spec(spec):
+    out = []
+    for x in spec:
+        sc = ("(STb %s %s)" % (cZ(x["q"]), cZ(x["b"])) if x["typ"] == "tb"
+              else "(SOther %s)" % cZ(x["max"] if x["typ"] == "mi" else -1))
+        out.append("(%s, %s)" % (core.cstr(x["name"].encode()), sc))
+    return clist(out)
+
+
 def coq_case(case, obs):
     if not isinstance(obs, dict) or "panic" in obs:
         return "CBad"
@@ -321,12 +405,16 @@ def coq_case(case, obs):
             return "CBad"
         return "(CTrace %s %s %s)" % (cZ(case["q"]), cZ(case["b"]),
                                       clist([cpair(coq_op(o), cbool(r)) for o, r in zip(case["ops"], res)]))
-    if k == "disp":
+    if k in ("disp", "ulim"):
         st = obs.get("steps", [])
         if len(st) != len(case["ops"]):
             return "CBad"
-        return "(CDisp %s %s %s)" % (cZ(case["q"]), cZ(case["b"]), clist(
-            ["(%s, %s, %s)" % (cZ(o["t"]), cbool(s["reached"]), cZ(s["status"])) for o, s in zip(case["ops"], st)]))
+        tr = []
+        for o, x in zip(case["ops"], st):
+            op = ("(DTry %s %s %s)" % (cZ(o["t"]), cbool(x["reached"]), cZ(x["status"])) if o["op"] == "try"
+                  else "(DSync %s)" % coq_spec(o["spec"]))
+            tr.append("(%s, Build_lk %s %s %s)" % (op, cbool(x["lk"]["tb"]), cZ(x["lk"]["q"]), cZ(x["lk"]["b"])))
+        return "(CDisp %s %s)" % (coq_spec(case["spec"]), clist(tr))
     if k == "conc":
         calls = obs.get("calls", [])
         if len(calls) != sum(1 for e in case["evs"] if e["ev"] == "read"):
@@ -345,7 +433,7 @@ def coq_case(case, obs):
 def decisions(case, obs):
     if case["kind"] == "trace":
         return obs.get("res", [])
-    if case["kind"] == "disp":
+    if case["kind"] in ("disp", "ulim"):
         return [s["reached"] for s in obs.get("steps", [])]
     return []
 
@@ -356,7 +444,7 @@ def nontrivial_key(case, obs):
         if any(x["resp"] > x["inv"] for x in calls) and any(x["ok"] for x in calls) and not all(x["ok"] for x in calls):
             return ("conc", case["q"], case["b"], repr(case["evs"]))
         return None
-    if case["kind"] not in ("trace", "disp") or "panic" in obs:
+    if case["kind"] not in ("trace", "disp", "ulim") or "panic" in obs:
         return None
     res = decisions(case, obs)
     d = [r for o, r in zip(case["ops"], res) if o["op"] == "try"]
@@ -384,6 +472,13 @@ def stats(case, obs):
         labs += ["conc:overlapping-call"] * sum(1 for x in calls if x["resp"] > x["inv"])
         labs += ["conc:clock-read-after-waiting-for-lock"] * sum(1 for x in calls if x["read"] > x["inv"])
         return labs
+    if k in ("disp", "ulim") and "panic" not in obs:
+        res = decisions(case, obs)
+        labs = ["kind:" + k] + ["pat:" + p for p in case.get("pat", "").split("+")]
+        labs += ["schemas=%d" % len(case["spec"])]
+        labs += ["decision:admit" if r else "decision:429" for o, r in zip(case["ops"], res) if o["op"] == "try"]
+        labs += ["lookup:token-bucket" if x["lk"]["tb"] else "lookup:OTHER-LIMITER" for x in obs.get("steps", [])]
+        return labs
     if k not in ("trace", "disp") or "panic" in obs:
         return ["kind:" + k]
     res = decisions(case, obs)
@@ -400,7 +495,7 @@ def stats(case, obs):
 
 
 def shrink(case):
-    if case["kind"] not in ("trace", "disp"):
+    if case["kind"] not in ("trace", "disp", "ulim"):
         return
     ops = case["ops"]
     n = len(ops)
@@ -412,7 +507,7 @@ def shrink(case):
 
 
 def neighbours(case, rng):
-    if case["kind"] not in ("trace", "disp"):
+    if case["kind"] not in ("trace",):
         return
     ops = case["ops"]
     for i in range(len(ops)):
